@@ -28,9 +28,12 @@ use std::panic::{catch_unwind, AssertUnwindSafe};
 use std::ptr::NonNull;
 use std::rc::Rc;
 use virtio_drivers::device::blk::VirtIOBlk;
+#[cfg(feature = "alloc")]
 use virtio_drivers::device::console::VirtIOConsole;
 use virtio_drivers::device::net::VirtIONetRaw;
+#[cfg(feature = "alloc")]
 use virtio_drivers::device::socket::VirtIOSocket;
+#[cfg(feature = "alloc")]
 use virtio_drivers::device::virtio_9p::VirtIO9p;
 use virtio_drivers::transport::mmio::{MmioTransport, VirtIOHeader};
 use virtio_drivers::transport::pci::bus::{ConfigurationAccess, DeviceFunction, PciRoot};
@@ -388,7 +391,11 @@ fn closure<T: Transport>(t: &T, code: u8, params: &[Triple]) -> Res {
             if tag_len == 0 { return Err(Error::InvalidParam); }
             let mut bytes = Vec::with_capacity(tag_len as usize);
             for idx in 0..tag_len as usize { let b: u8 = t.read_config_space(2 + idx)?; bytes.push(b); }
-            Ok(String::from_utf8(bytes)?.into_bytes().iter().map(|b| *b as u128).collect())
+            // (`impl From<FromUtf8Error> for Error`, i.e. `?` here, exists only with the cargo feature `alloc`: same mapping)
+            #[cfg(feature = "alloc")]
+            { Ok(String::from_utf8(bytes)?.into_bytes().iter().map(|b| *b as u128).collect()) }
+            #[cfg(not(feature = "alloc"))]
+            { Ok(String::from_utf8(bytes).map_err(|_| Error::IoError)?.into_bytes().iter().map(|b| *b as u128).collect()) }
         }
         _ => { let mut v = vec![]; for (s, a, off) in params { v.push(rd_dyn(t, *s, *a, *off as usize)?); } Ok(v) }
     }
@@ -463,10 +470,15 @@ fn user_case(ctx: &mut Ctx, c: &Case, user: u8) -> usize {
     fn go<T: Transport>(t: T, user: u8) -> Res {
         match user {
             0 => { let d = VirtIOBlk::<LedgerHal, T>::new(t)?; Ok(vec![d.capacity() as u128]) }
+            #[cfg(feature = "alloc")]
             1 => { let d = VirtIOSocket::<LedgerHal, T, 512>::new(t)?; Ok(vec![d.guest_cid() as u128]) }
+            #[cfg(feature = "alloc")]
             2 => { let d = VirtIOConsole::<LedgerHal, T>::new(t)?; let s = d.size()?.ok_or(Error::Unsupported)?; Ok(vec![s.columns as u128, s.rows as u128]) }
             3 => { let d = VirtIONetRaw::<LedgerHal, T, 4>::new(t)?; Ok(vec![le(&d.mac_address())]) }
+            #[cfg(feature = "alloc")]
             _ => { let d = VirtIO9p::<LedgerHal, T>::new(t)?; Ok(d.mount_tag().as_bytes().iter().map(|b| *b as u128).collect()) }
+            #[cfg(not(feature = "alloc"))]
+            _ => Err(Error::Unsupported),
         }
     }
     let r = catch_unwind(AssertUnwindSafe(move || match tp { Tp::M(t) => go(t, user), Tp::P(t) => go(t, user), Tp::S(t) => go(t, user) }));
@@ -527,6 +539,8 @@ fn rc_scenarios(ctx: &mut Ctx, users: bool) {
     let kinds: Vec<u8> = vec![0, 1, 2, 3, 4];   // users: which driver; direct: which closure
     for &tk in tks {
         for &k in &kinds {
+            // the vsock, console and 9p drivers exist only with the cargo feature `alloc`
+            if users && !cfg!(feature = "alloc") && k != 0 && k != 3 { continue; }
             let (code, tail) = if users { user_closure(k) } else { (k, vec![]) };
             // quiet device first: how many register reads one attempt makes
             let mut c0 = base_case(ctx, tk, code);
